@@ -221,6 +221,11 @@ def run_cli(argv, cwd, scratch_dir, env_extra=None, stdin_text=None, timeout=120
             if r == pid:
                 status = st
                 break
+            if opts.get("poll") is not None:
+                try:
+                    opts["poll"](pid)
+                except Exception:
+                    pass
             if time.monotonic() > deadline:
                 timed_out = True
                 try:
